@@ -361,10 +361,109 @@ def _site_key(s: RaiseSite) -> str:
     return norm_belief_key(f"A1|{s.file}|{s.unit.fn.qual}|{s.exc}|{short(c, 100)}")
 
 
+def _rx_pairs_backslash(rx: str) -> Optional[bool]:
+    """True when the string-token regex lets a backslash into the quotes only as the first half of a
+    two-character pair; False when it can stand alone; None when the regex is not of the known form."""
+    import re._parser as sre_parse  # type: ignore
+
+    try:
+        items = [(str(op), av) for op, av in sre_parse.parse(rx, __import__("re").VERBOSE)]
+    except Exception:
+        return None
+    if len(items) != 3 or items[0] != ("LITERAL", 34) or items[2] != ("LITERAL", 34) or items[1][0] not in ("MIN_REPEAT", "MAX_REPEAT"):
+        return False
+    body = list(items[1][1][2])
+    while len(body) == 1 and str(body[0][0]) == "SUBPATTERN":
+        body = list(body[0][1][3])
+    if len(body) != 1 or str(body[0][0]) != "BRANCH":
+        return False
+    for alt in body[0][1][1]:
+        alt = list(alt)
+        while len(alt) == 1 and str(alt[0][0]) == "SUBPATTERN":
+            alt = list(alt[0][1][3])
+        ops = [(str(o), a) for o, a in alt]
+        if len(ops) == 1 and ops[0][0] == "IN":
+            members = [(str(o), a) for o, a in ops[0][1]]
+            if ("NEGATE", None) in members and ("LITERAL", 92) in members:
+                continue
+            return False
+        if len(ops) == 1 and ops[0][0] == "NOT_LITERAL" and ops[0][1] == 92:
+            continue
+        if len(ops) == 2 and ops[0] == ("LITERAL", 92) and ops[1][0] in ("ANY", "IN", "NOT_LITERAL", "LITERAL"):
+            continue
+        return False
+    return True
+
+
+_SCAN_CACHE: Dict[str, Tuple[bool, str, Set[str]]] = {}
+
+
+def _scan_engine_discharge(cg: CG, s: RaiseSite) -> Optional[str]:
+    """IndexError of `s[i]` / StopIteration of `next(it)` in the unescape scan of the string token, in
+    whatever form the scan is written (B4's path summary): the scan is the recognised left-to-right
+    one, looks one character ahead only right behind a backslash, runs over the token text without
+    its quotes, and the token regex pairs every backslash with a following character."""
+    from .normal import V as _V
+    from .pyflow import PyFlow
+    from .rules_b import _unescape_scan
+
+    fi = s.unit.fn
+    if fi.cls is None or getattr(fi.cls, "name", None) != "Lexer":
+        return None
+    n = s.node
+    is_next = isinstance(n, ast.Call) and isinstance(n.func, ast.Name) and n.func.id == "next"
+    if not (isinstance(n, ast.Subscript) or is_next):
+        return None
+    if enclosing(n, (ast.While, ast.For)) is None:
+        return None
+    root = str(cg.model.repo.root) if hasattr(cg.model, "repo") else ""
+    key = root + "|" + fi.rel
+    if key not in _SCAN_CACHE:
+        lc = fi.cls
+        top = lc.methods.get("t_STRING_LITERAL")
+        verdict: Tuple[bool, str, Set[str]] = (False, "no t_STRING_LITERAL", set())
+        if top is not None:
+            rx = ast.get_docstring(top.node, clean=False)
+            mod_ = cg.model.mods[fi.rel]
+            consts = dict(mod_.assigns)
+            consts.update(lc.attrs_val)
+            for k_c in list(consts):
+                consts.setdefault(f"Lexer.{k_c}", consts[k_c])
+            consts = {k_c: v_c for k_c, v_c in consts.items() if "escaping_chars" not in k_c}
+            meths = {k_m: v_m.node for k_m, v_m in lc.methods.items()}
+            helpers = {top.node.name} | {c_.func.attr for c_ in ast.walk(top.node) if isinstance(c_, ast.Call) and isinstance(c_.func, ast.Attribute) and isinstance(c_.func.value, ast.Name) and c_.func.value.id == "self" and c_.func.attr in meths}
+            try:
+                prm = [a_.arg for a_ in top.node.args.args]
+                tops = PyFlow(funcs={}, methods=meths, consts=consts, havoc_on=(), inline_filter=lambda n_, f_: not n_.startswith("t_") and n_ != "current_filepath").run(top.node, {prm[0]: _V("self"), prm[1]: _V("t")})
+                ok, why, bad = _unescape_scan(tops, strict_text="t.value[1:-1]")
+                pairs = _rx_pairs_backslash(rx) if rx is not None else None
+                if ok and not bad and pairs is True:
+                    verdict = (True, "", helpers)
+                elif ok and not bad and pairs is False:
+                    verdict = (False, UNSAFE, helpers)
+                else:
+                    verdict = (False, why, helpers)
+            except Inconclusive as e:
+                verdict = (False, str(e), helpers)
+        _SCAN_CACHE[key] = verdict
+    ok, why, helpers = _SCAN_CACHE[key]
+    if fi.node.name not in helpers:
+        return None
+    if ok:
+        return "the unescape scan is the recognised left-to-right one over the token text without its quotes, looks ahead only right behind a backslash, and the token regex pairs every backslash with a following character"
+    if why == UNSAFE:
+        return UNSAFE + "the token regex lets a backslash stand alone inside the quotes (e.g. directly before the closing quote): the character after it does not exist"
+    return None
+
+
 def _auto_discharge(cg: CG, s: RaiseSite) -> Optional[str]:
     """Returns a reason when a dominating guard proves the site cannot raise."""
     fn = s.unit.fn.node
     n = s.node
+    if s.exc in ("IndexError", "LookupError", "StopIteration"):
+        r0 = _scan_engine_discharge(cg, s)
+        if r0:
+            return r0
     if s.kind == "subscript" and isinstance(n, ast.Subscript):
         facts = facts_at(n, fn)
         idx = n.slice
@@ -597,6 +696,9 @@ def _int_regex_shape(cg: CG, s: RaiseSite) -> Optional[str]:
     base = 10
     if len(call.args) > 1 and isinstance(call.args[1], ast.Constant):
         base = call.args[1].value
+    for kw_ in call.keywords:
+        if kw_.arg == "base" and isinstance(kw_.value, ast.Constant):
+            base = kw_.value.value
     k = 0
     if isinstance(arg, ast.Subscript) and isinstance(arg.slice, ast.Slice) and src_of(arg.value) == "t.value":
         lo_ = arg.slice.lower
